@@ -610,3 +610,44 @@ def x2(prog):
     if not ok:
         findings.append({"key": "X2:pred_op_loclist_elem", "where": f["l"], "msg": "?OP_x on a location-list element does not scan every operation [0, exprlen): loop condition `%s`" % narrowed, "detail": None})
     return inst, findings
+
+
+def u1(prog):
+    """erase-remove idiom: the iterator returned by std::remove/remove_if/unique is erased up to end()"""
+    inst, findings = [], []
+    n = 0
+    for f in prog.funcs.values():
+        rel = prog.rel(f["file"])
+        if not (rel.startswith("libzwerg/") or rel.startswith("dwgrep/")) or "/test-" in rel:
+            continue
+        body = f.get("body")
+        if body is None:
+            continue
+        removed = {}
+        for x in walk(body):
+            if x.get("k") == "decl":
+                for v in x["vars"]:
+                    i = unwrap(v.get("init"))
+                    if isinstance(i, dict) and i.get("k") == "call" and i.get("f", "").startswith(("std::remove_if<", "std::remove<", "std::unique<")):
+                        removed[v["id"]] = v
+        for c in calls(body):
+            if c.get("fn") != "erase":
+                continue
+            args = c.get("a", [])
+            first = unwrap(args[0]) if args else None
+            while isinstance(first, dict) and first.get("k") == "ctor" and len(first.get("a", [])) == 1 and "__normal_iterator" in first.get("c", ""):
+                first = unwrap(first["a"][0])       # iterator -> const_iterator conversion
+            inline = isinstance(first, dict) and first.get("k") == "call" and first.get("f", "").startswith(("std::remove_if<", "std::remove<", "std::unique<"))
+            viavar = isinstance(first, dict) and first.get("k") == "ref" and first.get("id") in removed
+            if not (inline or viavar):
+                continue
+            n += 1
+            key = "U1:%s@%s" % (f["q"], c.get("l"))
+            inst.append((key, {"erase_arguments": len(args)}))
+            if len(args) < 2:
+                findings.append({"key": "U1:%s" % f["q"], "where": c.get("l"),
+                                 "msg": "%s erases only ONE element at the iterator returned by std::remove_if/remove/unique: the stale tail left by the algorithm survives (e.g. a statement stays in the tree twice after dropping NOPs)" % f["q"],
+                                 "detail": None})
+    if n < 1:
+        raise Broken("no erase-remove site found (anchor tree::simplify vanished)")
+    return inst, findings
